@@ -296,6 +296,30 @@ TCParse ==
                                THEN 1 ELSE 1)
   /\ l' = l + 1 /\ UNCHANGED << objs, limit, nunspec >>
 
+\* a setter made while another thread flips the limit between L1 and L2: the resulting href must be the
+\* old one or the Standard's result, a call that reports failure must have left the object unchanged, a
+\* result that fits under both limits (with an argument that fits) must have been applied, and a result
+\* that fits under neither must not
+TCSet ==
+  /\ IsEvent("cset")
+  /\ LET old == ParseObj(Ev.start, FALSE, InvalidObj)
+         std == StdApply(old, Ev.op, Ev.v)
+         oldH == Serialize(old.url)
+         stdH == IF std.valid THEN Serialize(std.url) ELSE oldH
+         lo == IF Ev.L1 < Ev.L2 THEN Ev.L1 ELSE Ev.L2
+         hi == IF Ev.L1 < Ev.L2 THEN Ev.L2 ELSE Ev.L1
+         good == \/ old.unspec \/ std.unspec \/ ~old.valid
+                 \/ /\ Ev.href \in {oldH, stdH}
+                    /\ (Ev.has_ret /\ ~Ev.ret => Ev.href = oldH)
+                    /\ (Len(stdH) > hi => Ev.href = oldH)
+                    /\ (Len(stdH) <= lo /\ Len(Ev.v) <= lo => Ev.href = stdH)
+     IN ndiag' = ndiag + (IF good THEN 0
+                          ELSE IF PrintT("@@DIAG " \o ToJson([l |-> l, who |-> Ev.who, kind |-> "concurrent-limit",
+                                                              props |-> <<"C13">>, op |-> Ev.op, ret |-> Ev.ret,
+                                                              L1 |-> Ev.L1, L2 |-> Ev.L2, href |-> Ev.href]))
+                               THEN 1 ELSE 1)
+  /\ l' = l + 1 /\ UNCHANGED << objs, limit, nunspec >>
+
 \* the recorder's crash handler wrote this line: the call did not return
 TCrashed ==
   /\ IsEvent("crashed")
@@ -303,7 +327,7 @@ TCrashed ==
   /\ l' = l + 1 /\ UNCHANGED << objs, limit, nunspec >>
 
 Next == TReset \/ TLimit \/ TParse \/ TSet \/ TCopy \/ TObserve \/ TReparse \/ TCanParse
-        \/ TVec \/ TSetVec \/ TCrashed \/ TCLimits \/ TCParse
+        \/ TVec \/ TSetVec \/ TCrashed \/ TCLimits \/ TCParse \/ TCSet
 
 Spec == Init /\ [][Next]_vars
 
